@@ -62,13 +62,23 @@ func verifC19(policyOracle func(policy string, useDefault, inject bool) bool, la
 	hostNet := vp.Bool("hostNetwork")
 	ns := vp.String("namespace", 4)
 	ignored := []string{vp.String("ignored0", 4), vp.String("ignored1", 4)}
-	lbls := map[string]string{"app": "x"}
+	// the pod's other labels: none at all (nil map), an empty map, or one unrelated label
+	var lbls map[string]string
+	switch vp.Choice("podLabels", 3) {
+	case 1:
+		lbls = map[string]string{}
+	case 2:
+		lbls = map[string]string{"app": "x"}
+	}
 	annos := map[string]string{"other.example/anno": vp.String("otherAnno", 4)}
 	labelPresent := vp.Choice("labelPresent", 2) == 1
 	annoPresent := vp.Choice("annoPresent", 2) == 1
 	labelVal, annoVal := "", ""
 	if labelPresent {
 		labelVal = vp.String("labelVal", 5)
+		if lbls == nil {
+			lbls = map[string]string{}
+		}
 		lbls[label.SidecarInject.Name] = labelVal
 	}
 	if annoPresent {
